@@ -76,7 +76,33 @@ package analysis
 
 // integer-backedness depends only on the (immutable) named type of the enum
 //@ func (*Enum).IsInteger
+//@   props C08
 //@   pure
+//@   nosafety
+//@   requires e != nil
+//@   ensures result <==> e.Kind() == BKInt
+
+// the kind of the basic type an enum is defined over
+//@ func (*Enum).Kind
+//@   props C08
+//@   pure
+//@   nosafety
+//@   requires e != nil
+//@   ensures result == NewBasicKind(e.Underlying().Info())
+
+//@ func (*Enum).Underlying
+//@   props C08
+//@   pure
+//@   nosafety
+//@   requires e != nil
+//@   ensures result == as(e.name.Underlying(), *types.Basic)
+
+//@ func (*Basic).Kind
+//@   props C08
+//@   pure
+//@   nosafety
+//@   requires b != nil
+//@   ensures result == NewBasicKind(as(b.B.Underlying(), *types.Basic).Info())
 
 //@ func sortBy.Len
 //@   props C10
@@ -264,8 +290,11 @@ package analysis
 // earlier node of that type; only "no nil node" is carried through the recursion)
 
 //@ func NewTime
-//@   props C12
+//@   props C12 C08
+//@   pure result2
 //@   requires typ != nil
+//@   -- a time is a named type whose definition is spelled like time.Time
+//@   ensures result2 <==> typ.Underlying().String() == "struct{wall uint64; ext int64; loc *time.Location}" && is(typ, *types.Named)
 //@   ensures result2 ==> result1 != nil && (is(result1, *Time) || is(result1, *Named))
 //@   ensures result2 && is(result1, *Named) ==> as(result1, *Named).name == typ && as(result1, *Named).Underlying != nil
 
@@ -410,6 +439,12 @@ package analysis
 // every implementation of Type.Type() is a pure function of the node (read from the source: they only read fields)
 //@ puremethod Type.Type
 
+//@ func LocalName
+//@   props C08
+//@   pure
+//@   nosafety
+//@   ensures result == as(ty.Type(), *types.Named).Obj().Name()
+
 //@ func (*Array).Type
 //@   props C12
 //@   requires ar != nil && ar.Elem != nil
@@ -425,9 +460,16 @@ package analysis
 //@   ensures result == types.NewPointer(p.Elem.Type())
 
 // simplified kind of a basic type, from the go/types flags (bit tests are uninterpreted: only the order of the tests is checked)
+// the kind is the first of boolean / integer / float / string whose flag is set in the go/types info
 //@ func NewBasicKind
-//@   props C12
+//@   props C12 C08
+//@   pure
 //@   ensures !result2 ==> result1 == 0
+//@   ensures bitand(info, types.IsBoolean) != 0 ==> result1 == BKBool && result2
+//@   ensures bitand(info, types.IsBoolean) == 0 && bitand(info, types.IsInteger) != 0 ==> result1 == BKInt && result2
+//@   ensures bitand(info, types.IsBoolean) == 0 && bitand(info, types.IsInteger) == 0 && bitand(info, types.IsFloat) != 0 ==> result1 == BKFloat && result2
+//@   ensures bitand(info, types.IsBoolean) == 0 && bitand(info, types.IsInteger) == 0 && bitand(info, types.IsFloat) == 0 && bitand(info, types.IsString) != 0 ==> result1 == BKString && result2
+//@   ensures bitand(info, types.IsBoolean) == 0 && bitand(info, types.IsInteger) == 0 && bitand(info, types.IsFloat) == 0 && bitand(info, types.IsString) == 0 ==> !result2
 
 //@ func StructField.IsSQLGuard
 //@   props C05 C08
